@@ -114,7 +114,7 @@ def gen_case(rng, i, tier):
         items = list(t.items())
         rng.shuffle(items)
         return {"family": "random-reciprocal", "table": dict(items), "nfaces": nf, "axes": ["X", "Y"]}
-    kind = rng.choice(["two-face-dims", "facedim-absent", "facedim-absent-consistent"])
+    kind = rng.choice(["two-face-dims", "two-face-dims-one-absent", "two-face-dims-absent-first", "facedim-absent", "facedim-absent-consistent"])
     nf = rng.randint(2, 4)
     t = linktable.random_reciprocal(rng, nf, p_link=0.9)
     return {"family": kind, "table": t, "nfaces": nf, "axes": ["X", "Y"]}
@@ -142,6 +142,12 @@ def run_case(ctx, desc):
     if fam == "two-face-dims":
         coords["tile"] = ("tile", np.arange(nf))
         fc = {"face": t, "tile": t}
+        expect = False
+    elif fam == "two-face-dims-one-absent":
+        fc = {"face": t, "tile": t}  # 'tile' is not a dimension of the dataset
+        expect = False
+    elif fam == "two-face-dims-absent-first":
+        fc = {"tile": t, "face": t}
         expect = False
     elif fam.startswith("facedim-absent"):
         fc = {"panel": t}
